@@ -26,7 +26,7 @@ PACKAGES = {
 NOT_APPLICABLE = {}
 
 # commits in /repo that add verif-tagged hooks
-HOOK_COMMITS = []
+HOOK_COMMITS = ["87c6d7a"]
 
 PROPS = {}
 for f in sorted(glob.glob(os.path.join(HERE, "props.d", "*.json"))):
